@@ -13,9 +13,20 @@ Definition set_origin (o : nat) (d : pdesc) : pdesc :=
           (d_shadowingAllowed d) (d_failmask d) (d_calls d) (d_passthru d).
 Definition erase_origin : pdesc -> pdesc := set_origin 0.
 
-(* what is left of a provider once the named edits have been applied: no names, no directives *)
+(* a provider supplied through the Reflective interfaces instead of as a Go function *)
+Definition set_reflective (b : bool) (d : pdesc) : pdesc :=
+  mkPdesc (d_pid d) (d_origin d) (d_rep d) (d_bef d) (d_aft d) (d_shape d) b (d_nonFinal d) (d_cacheable d)
+          (d_mustCache d) (d_required d) (d_memoize d) (d_reorder d) (d_desired d) (d_shun d) (d_notCacheable d)
+          (d_singleton d) (d_parallel d) (d_cluster d) (d_loose d) (d_mustConsume d) (d_consumptionOptional d)
+          (d_shadowingAllowed d) (d_failmask d) (d_calls d) (d_passthru d).
+(* how the provider is presented: its name and whether it is a function or a Reflective *)
+Definition erase_presentation (d : pdesc) : pdesc := set_reflective false (set_origin 0 d).
+
+(* what is left of a provider once the named edits have been applied: no names, no directives; and
+   characterization reads a Reflective through the same reflectType interface as a function
+   (reflective.go: wrappedReflective), so that distinction is gone as well *)
 Definition erase_names (d : pdesc) : pdesc :=
-  mkPdesc (d_pid d) 0 0 0 0 (d_shape d) (d_reflective d) (d_nonFinal d) (d_cacheable d)
+  mkPdesc (d_pid d) 0 0 0 0 (d_shape d) false (d_nonFinal d) (d_cacheable d)
           (d_mustCache d) (d_required d) (d_memoize d) (d_reorder d) (d_desired d) (d_shun d) (d_notCacheable d)
           (d_singleton d) (d_parallel d) (d_cluster d) (d_loose d) (d_mustConsume d) (d_consumptionOptional d)
           (d_shadowingAllowed d) (d_failmask d) (d_calls d) (d_passthru d).
